@@ -34,6 +34,22 @@ def gen_workload(rng, prop, B):
     ntop = rng.choice([1, 2, 3])
     topics = ["t%d" % (i + 1) for i in range(ntop)]
     g = G.Gen(rng, B=B, big=True)
+    if prop == "C09" and rng.random() < 0.3:
+        # regular streams: equal-size entries (one per block, two per block, or small), a consumer that
+        # has read part of them with read_next: consecutive persisted positions then share their
+        # in-block offset or their block (seeded change c09b-1 — an index write skipped when the
+        # offset alone is unchanged — needs exactly this and was missed by the random sizes)
+        per = rng.choice([1, 1, 2, 3, 8])
+        size = max(0, (B // per) - 64 - rng.choice([0, 0, 1, 7, 40]) if per > 1 else rng.randint(B // 2 + 1, B - 64))
+        n = rng.choice([3, 4, 5, 7]) * (1 if per <= 2 else 2)
+        t = topics[0]
+        ops = ["A %s %d %d" % (t, i, size) for i in range(n)]
+        nread = rng.randint(1, n)
+        pos = sorted(rng.sample(range(1, n + 1), min(n, rng.choice([0, 1, 2]))))     # a few reads interleaved with the appends
+        for j, p in enumerate(pos):
+            ops.insert(p + j, "R %s 1" % t)
+        ops += ["R %s 1" % t] * max(0, nread - len(pos))
+        return hdr, ops, dict(topics=topics, mode=mode, only_read_next=True, regular=True)
     ops, pid = [], 0
     nops = rng.choice([4, 8, 14, 22])
     only_read_next = True
@@ -183,8 +199,10 @@ def run(ctx):
             ks = w[3]
         elif q:
             ks = sorted(set(rng.sample(range(1, n + 1), min(n, 14)))) if n > 0 else []
+            if w[2].get("regular") and n > 0:
+                ks = sorted(set(ks) | {n, n + 1})      # right before the last event, and after it (a plain restart)
         else:
-            ks = list(range(1, n + 1))
+            ks = list(range(1, n + 2 if w[2].get("regular") else n + 1))
         for k in ks:
             lines = ["CASE %s-w%d-k%d %s" % (prop, i, k, w[0]), "CRASHAT %d" % k] + w[1] + ["RESTART"] + drain_lines(w[2]["topics"])
             cases.append(lines)
